@@ -201,10 +201,13 @@ def likely_cached_before(ops, idx):
     return s
 
 
-def fault_kinds_for(kd):
+def fault_kinds_for(kd, parallel=True):
     kinds = []
     if kd["scheme"] == "sim":
         kinds += ["NOTFOUND", "ERR_BEFORE", "ERR_MID", "ERR_AFTER", "RET_FALSE_BEFORE", "RET_FALSE_MID"]
+        if not parallel:
+            # Ctrl-C reaches the main thread only: meaningful when the download runs there
+            kinds += ["INTERRUPT_MID"]
     elif kd["scheme"] == "https":
         kinds += ["HTTP_404", "HTTP_5XX", "CONN_ERR", "TIMEOUT"]
     kinds += ["EIO", "ENOSPC", "SHORT_WRITE", "EMFILE", "RENAME_EIO"]
@@ -234,7 +237,7 @@ def gen_faults(rng, knobs, ops):
             faults.append({"op": op["id"], "kind": rng.choice(["VALIDATE_FALSE", "VALIDATE_IOERROR"]), "key": k})
             if rng.random() < 0.5:
                 # the refetch after the rejection fails too
-                kind = rng.choice(fault_kinds_for(keys[k]))
+                kind = rng.choice(fault_kinds_for(keys[k], knobs.get("parallel", True)))
                 faults.append(make_fault(rng, op["id"], kind, k))
         else:
             pool = miss or op["keys"]
@@ -242,7 +245,7 @@ def gen_faults(rng, knobs, ops):
             if len(op["keys"]) >= 6 and rng.random() < 0.6:
                 pool = [k for k in op["keys"][:5] if k in pool] or pool
             k = rng.choice(pool)
-            faults.append(make_fault(rng, op["id"], rng.choice(fault_kinds_for(keys[k])), k))
+            faults.append(make_fault(rng, op["id"], rng.choice(fault_kinds_for(keys[k], knobs.get("parallel", True))), k))
         if rng.random() < 0.7:
             extra_ops.append((gi, {"op": "GET", "keys": list(op["keys"]), "dt": rng.choice([0, 1000, 10**9])}))
     # retries directly after the faulted request
@@ -256,7 +259,7 @@ def gen_faults(rng, knobs, ops):
 
 def make_fault(rng, op_id, kind, key):
     f = {"op": op_id, "kind": kind, "key": key}
-    if kind in ("ERR_MID", "RET_FALSE_MID"):
+    if kind in ("ERR_MID", "RET_FALSE_MID", "INTERRUPT_MID"):
         f["k"] = rng.choice([0, 1, 1, 2, 5])
     if kind in ("EIO", "ENOSPC", "SHORT_WRITE"):
         f["nth"] = rng.choice([0, 0, 1, 2])
